@@ -121,6 +121,8 @@ type Program struct {
 	// put into the loader before the observed Execute: a template that exists now is found now, whatever an
 	// earlier lookup of its name came to.
 	Late []string `json:"late,omitempty"`
+	// Dev: the Set is in development mode (nothing is cached; every lookup goes to the loader).
+	Dev bool `json:"dev,omitempty"`
 	// PriorEntry: a template of the same Set that is executed (with PriorData as context, unjudged) on the
 	// same goroutine right before the observed Execute, which must not see anything of it.
 	PriorEntry string  `json:"prior_entry,omitempty"`
